@@ -54,6 +54,7 @@ def check(ctx, doc):
 
 
 def replay(ctx, case):
+    _doc.warmup()
     check(ctx, case)
 
 
@@ -61,6 +62,7 @@ FUZZ_IMPORTS = ['mwlib.parser.refine.uparser', 'mwlib.parser.refine.core', 'mwli
 
 
 def run_shard(ctx):
+    _doc.warmup()
     @ctx.settings(ctx.n(24000, 400000))
     @given(_doc.documents())
     def t(doc):
